@@ -22,6 +22,7 @@ def report_defs(rng, k, scen_ids=()):
     out = []
     which = {}
     fmts = {}
+    hides = {}
     for i in range(k):
         cols = rng.choice(COLSETS)
         lines = ['taskreport rep%d "rep%d" {' % (i, i), "  formats json, csv", "  columns " + ", ".join(cols)]
@@ -35,11 +36,12 @@ def report_defs(rng, k, scen_ids=()):
             lines.append('  timeformat "%s"' % fmts["rep%d" % i])
         if rng.random() < 0.4:
             lines.append("  leaftasksonly true")
-        if rng.random() < 0.3:
-            lines.append("  hidetask @none")               # hide nothing: every task has its row
+        hides["rep%d" % i] = rng.choice(["", "", "@none", "@none", "@all", "red", "~red", "blue"])
+        if hides["rep%d" % i]:
+            lines.append("  hidetask %s" % hides["rep%d" % i])      # '@none' hides nothing, a flag name the tasks that carry it
         lines.append("}")
         out.append("\n".join(lines))
-    return "\n".join(out) + "\n", which, fmts
+    return "\n".join(out) + "\n", which, fmts, hides
 
 
 def check(prop, tier, replay=None):
@@ -75,10 +77,16 @@ def check(prop, tier, replay=None):
                 for t in p.tasks:
                     if not t.kids and t.effort and rng.random() < 0.6:
                         t.scen["delayed"] = {"effort": t.effort * rng.choice([2, 3]) if rng.random() < 0.7 else max(p.G, t.effort // 2 // p.G * p.G)}
-            p.extra, which, fmts = report_defs(rng, 3, scen_ids)
+            # flags on leaves below unflagged containers (what a container's flag means for the tasks inside is not claimed)
+            p.flag_decl = ["red", "blue"]
+            for t in p.tasks:
+                if not t.kids and rng.random() < 0.4:
+                    t.flags = list(t.flags) + [rng.choice(["red", "blue"])]
+            p.extra, which, fmts, hides = report_defs(rng, 3, scen_ids)
             # the effective time format by the generator: the report's own, else the one the project header declares
             jobs.append({"id": "C18-" + pid, "text": p.render(), "report_scenario": which, "rates": gen.effective_rates(p),
-                         "report_fmt": {k: (v or "%Y-%m-%d %H:%M") for k, v in fmts.items()}})
+                         "report_fmt": {k: (v or "%Y-%m-%d %H:%M") for k, v in fmts.items()}, "report_hide": hides,
+                         "task_flags": {p.full(t): [f for f in t.flags if f in ("red", "blue")] for t in p.tasks}})
     if replay:
         jobs = [json.load(open(replay))]
     with scratch_build() as scr:
